@@ -574,6 +574,19 @@ func (g *clientEngine) clientApplyView(lg *clientLog, c *clientCase) (view map[s
 		view[dataKey(t.Tile)] = nil
 	case "data-missing":
 		delete(view, dataKey(t.Tile))
+	case "tilepair-other-log":
+		// a data tile AND the level-0 hash tile above it, consistently, from another log of the same size: only the
+		// comparison of that hash tile with its parent (or, for the edge tile, the recombination to the root) can tell
+		ol, err := g.logFor(lg.seed+77, n, g.other, lg.origin)
+		if err != nil {
+			return nil, sct, err
+		}
+		ht := submitTilePath("0", int64(t.Tile), min(256, n-t.Tile*256))
+		if _, ok := ol.view[ht]; !ok {
+			return nil, sct, errors.New("no such tile")
+		}
+		view[dataKey(t.Tile)] = ol.view[dataKey(t.Tile)]
+		view[ht] = ol.view[ht]
 	case "data-other-log", "all-other-log": // tiles of a different log (other leaves, other key) of the same size
 		ol, err := g.logFor(lg.seed+77, n, g.other, lg.origin)
 		if err != nil {
@@ -983,7 +996,13 @@ func (g *clientEngine) runCase(c *clientCase) (err error) {
 			}
 			next++
 			if ok, why := clientCoveredEq(y.e, lg.leaves[y.i]); !ok {
-				g.fail(c, "client-yielded-unauthentic-entry", fmt.Sprintf("%s: entry yielded at index %d differs from the leaf the tree head commits to: %s", name, y.i, why))
+				sig := "client-yielded-unauthentic-entry"
+				if c.Tamper.Kind == "tilepair-other-log" && int64(c.Tamper.Tile) == y.i/256 && tlogLeavesTileUnauthenticated(int64(lg.n), y.i/256) {
+					// the level-0 hash tile of these entries is one of the tiles tlog.TileHashReader never compares with its
+					// parent at this tree size (finding F10): the client trusted served hashes
+					sig = "client-yielded-unauthentic-entry:tlog-unauthenticated-tile"
+				}
+				g.fail(c, sig, fmt.Sprintf("%s: entry yielded at index %d differs from the leaf the tree head commits to: %s", name, y.i, why))
 				break
 			}
 		}
@@ -1011,8 +1030,18 @@ func (g *clientEngine) runCase(c *clientCase) (err error) {
 					}
 				}
 				tileOK := cerr == nil || t < c.Tamper.Tile
+				hs := lg.hashes[t*256 : t*256+w]
+				if c.Tamper.Kind == "tilepair-other-log" && t == c.Tamper.Tile && tlogLeavesTileUnauthenticated(int64(lg.n), int64(t)) {
+					// finding F10: at this size the reader hands out this tile's hashes as served, without comparing the
+					// tile with its parent — the entries are compared with THOSE
+					hs = nil
+					raw := view[submitTilePath("0", int64(t), w)]
+					for k := 0; k+32 <= len(raw); k += 32 {
+						hs = append(hs, [32]byte(raw[k:k+32]))
+					}
+				}
 				g.line("tile %s allow=%d start=%d i0=%d hs=%s data=%s => ok=%d y=%s", name, submitB(c.Allow), c.Start, t*256,
-					clientHexList(lg.hashes[t*256:t*256+w]), submitHex(view[submitTilePath("data", int64(t), w)]), submitB(tileOK), submitIDs(got))
+					clientHexList(hs), submitHex(view[submitTilePath("data", int64(t), w)]), submitB(tileOK), submitIDs(got))
 				if !tileOK {
 					break
 				}
@@ -1212,7 +1241,7 @@ func clientLenientIndex(ext []byte) (int64, bool) {
 
 var clientDataTampers = []string{"data-swap", "data-rotate", "data-duplicate", "data-fingerprints", "data-precert-bytes", "data-timestamp",
 	"data-cert-byte", "data-cert-extend", "data-ikh", "data-type", "data-leaf-index", "data-leaf-index-high", "data-archival", "data-truncate-entry", "data-truncate-bytes",
-	"data-append-entry", "data-append-garbage", "data-bitflip", "data-empty", "data-missing", "data-other-log", "all-other-log"}
+	"data-append-entry", "data-append-garbage", "data-bitflip", "data-empty", "data-missing", "data-other-log", "all-other-log", "tilepair-other-log"}
 var clientHashTampers = []string{"hash-bitflip", "hash-truncate", "hash-missing", "hash-extend"}
 var clientCkptTampers = []string{"ckpt-sig-flip", "ckpt-size", "ckpt-root", "ckpt-origin", "ckpt-extension", "ckpt-drop-log-sig", "ckpt-attacker-key",
 	"ckpt-attacker-key-same-id", "ckpt-other-name-attacker", "ckpt-truncate", "ckpt-garbage", "ckpt-older", "ckpt-missing", "ckpt-sig-trailing", "ckpt-forged-zero-digest"}
@@ -1264,6 +1293,12 @@ func (g *clientEngine) generate(r *Rand, sizes []int, perKind int) []*clientCase
 				&clientCase{Seed: seed, N: n, Transport: t, Op: "entry", Index: -1, Tamper: clientTamper{Kind: "none"}})
 		}
 		ntiles := (n + 255) / 256
+		// a full data tile and the hash tile above it swapped, consistently, for another log's: every full tile position
+		for tile := 0; tile < n/256 && tile < 3; tile++ {
+			tm := clientTamper{Kind: "tilepair-other-log", Tile: tile}
+			cs = append(cs, &clientCase{Seed: seed, N: n, Transport: tr(), Op: "entries", Start: 0, Tamper: tm},
+				&clientCase{Seed: seed, N: n, Transport: tr(), Op: "allentries", Start: int64(tile * 256), Tamper: tm})
+		}
 		for k := 0; k < perKind; k++ {
 			for _, kind := range clientDataTampers {
 				tile := r.Intn(ntiles)
@@ -1380,4 +1415,18 @@ func clientRun(args []string) int {
 	g.trace.Close()
 	Finish(o.Out, g.stats, g.fails)
 	return code
+}
+
+// tlogLeavesTileUnauthenticated says whether, reading the leaves of level-0 tile `tile` of a tree of n leaves, the pinned
+// tlog.TileHashReader omits the comparison of that tile with its parent (finding F10): the tile sits at position m-1 of
+// the chain of m non-edge tiles, and comparisons start at position peaks(n) - edgeTiles(n).
+func tlogLeavesTileUnauthenticated(n, tile int64) bool {
+	m := int64(0)
+	for l, x := uint(0), tile; x != (n>>(8*l))>>8; l, x = l+1, x>>8 {
+		m++
+	}
+	if m == 0 {
+		return false // the edge tile itself: authenticated by the recombination to the root
+	}
+	return m-1 < int64(TlogPeaks(n)-TlogEdgeTiles(n))
 }
